@@ -30,6 +30,7 @@ TPS = 64
 ABSENT = -1
 NONE = -2
 UNKNOWN = -9
+MAX_TASKS = 128  # TraceTasks in TraceReqContext.tla
 _MISSING = object()
 
 
@@ -66,6 +67,8 @@ class Recorder:
         task = asyncio.Task(coro, loop=loop, **kw)
         parent = asyncio.current_task(loop)
         tid = len(self.tasks) + 1
+        if tid > MAX_TASKS:
+            raise tlc.MachineryError("more than %d asyncio tasks in one scenario" % MAX_TASKS)
         self.tasks[task] = tid
         self.task_obj[tid] = task
         if parent is not None and parent in self.tasks:
@@ -764,14 +767,20 @@ def random_composite(rnd, max_clients=3):
             reqs.append([rnd.choice([0, 0, 0, 1, 2, 3]), lat, chunks])
         return {"op": kind, "name": name(), "reqs": reqs}
 
+    budget = [0]
+
     def stream(depth):
         items = []
         for _ in range(rnd.randint(1, 3)):
-            if depth < 2 and rnd.random() < 0.45:
+            if depth < 2 and budget[0] > 0 and rnd.random() < 0.45:
                 for _k in range(rnd.randint(1, 3)):
-                    items.append({"stream": stream(depth + 1)})
+                    if budget[0] > 0:
+                        budget[0] -= 1
+                        items.append({"stream": stream(depth + 1)})
             else:
                 items.append(op())
+        if not items:
+            items.append(op())
         return items
 
     clients = []
@@ -779,6 +788,7 @@ def random_composite(rnd, max_clients=3):
         iters = []
         at = 0
         for _i in range(rnd.randint(1, 3)):
+            budget[0] = 8
             iters.append({"at": at, "max_conn": rnd.choice([0, 0, 1, 2, 3]), "requests": stream(0)})
             at = 0 if rnd.random() < 0.5 else at + rnd.choice([3, 10, 25])
         clients.append({"iters": iters})
